@@ -57,7 +57,7 @@ class UnitResult:
 class Ctx:
     def __init__(self, pid, tier, seed):
         self.pid, self.tier, self.seed = pid, tier, seed
-        self.timeout_ms = 10000 if tier == "quick" else 60000
+        self.timeout_ms = 20000 if tier == "quick" else 60000
         self.scratch = None
 
     @property
